@@ -260,6 +260,29 @@ func (m *c17Monitor) violation(rule venRule, class, detail string) {
 }
 
 func (m *c17Monitor) judge(rule venRule, schemas ast.Schemas, before, after []ast.Builder) {
+	if os.Getenv("VERIF_DEBUG") == rule.kind {
+		for _, b := range after {
+			if b.Name != rule.object {
+				continue
+			}
+			for _, o := range b.Options {
+				if strings.EqualFold(o.Name, rule.option) {
+					fmt.Printf("DEBUG after %s: option %s args=%d", rule.descr, o.Name, len(o.Args))
+					for _, a := range o.Args {
+						fmt.Printf(" arg:%s", a.Name)
+					}
+					for _, as := range o.Assignments {
+						an := "-"
+						if as.Value.Argument != nil {
+							an = as.Value.Argument.Name
+						}
+						fmt.Printf(" assign:%s<-%s", as.Path.String(), an)
+					}
+					fmt.Println()
+				}
+			}
+		}
+	}
 	// (i) well-typedness: only problems that this rule introduced
 	had := map[string]bool{}
 	for _, p := range wellTypedProblems(schemas, before) {
@@ -756,6 +779,7 @@ func c17AimSchema(pkg string) *ast.Schema {
 	s.AddObject(ast.NewObject(pkg, "Defaults", ast.NewStruct(ast.NewStructField("defaults", ast.NewRef(pkg, "Custom"), ast.Required()))))
 	s.AddObject(ast.NewObject(pkg, "Panel", ast.NewStruct(
 		ast.NewStructField("title", ast.String(ast.Default("untitled")), ast.Required()),
+		ast.NewStructField("subtitle", ast.String(), ast.Required()),
 		ast.NewStructField("fieldConfig", ast.NewRef(pkg, "Defaults"), ast.Required()),
 		ast.NewStructField("visible", ast.Bool(ast.Default(true)), ast.Required()),
 		ast.NewStructField("tags", ast.NewArray(ast.String()), ast.Required()),
@@ -777,7 +801,7 @@ func genVeneerRules(rng *RNG, builders []ast.Builder, n int) []venRule {
 		y := fmt.Sprintf("  - %s: {by_name: Panel.%s%s}\n", kind, opt, extra)
 		return venRule{scope: "option", kind: kind, pkg: "aim", object: "Panel", option: opt, params: map[string]string{}, yaml: y, descr: strings.TrimSpace(y)}
 	}
-	switch rng.Intn(8) {
+	switch rng.Intn(10) {
 	case 0:
 		rules = append(rules, mkOpt("array_to_append", "items", ""), mkOpt("disjunction_as_options", "items", ""))
 	case 1:
@@ -796,6 +820,13 @@ func genVeneerRules(rng *RNG, builders []ast.Builder, n int) []venRule {
 		y := "  - promote_options_to_constructor: {by_object: Panel, options: [leaf]}\n"
 		rules = append(rules, mkOpt("struct_fields_as_arguments", "leaf", ""),
 			venRule{scope: "builder", kind: "promote_options_to_constructor", pkg: "aim", object: "Panel", params: map[string]string{}, yaml: y, descr: strings.TrimSpace(y), late: true})
+	case 7:
+		// an argument feeding two assignments (add_assignment), renamed afterwards by a language-specific rule
+		y1 := "  - add_assignment: {by_name: Panel.title, assignment: {path: subtitle, method: direct, value: {argument: {name: title, type: {kind: scalar, scalar: {scalar_kind: string}}}}}}\n"
+		y2 := "  - rename_arguments: {by_name: Panel.title, as: [heading]}\n"
+		rules = append(rules,
+			venRule{scope: "option", kind: "add_assignment", pkg: "aim", object: "Panel", option: "title", params: map[string]string{}, yaml: y1, descr: strings.TrimSpace(y1)},
+			venRule{scope: "option", kind: "rename_arguments", pkg: "aim", object: "Panel", option: "title", params: map[string]string{}, yaml: y2, descr: strings.TrimSpace(y2), late: true})
 	case 6:
 		// unfold_boolean, then the whole builder duplicated by a language-specific rule
 		y := "  - duplicate: {by_object: Panel, as: PanelTwin}\n"
